@@ -5,7 +5,7 @@ import sys, os, json, glob, shutil, re
 MAP = [("fungible/storage.rs", "C01"), ("capped", "C16"), ("allowlist", "C16"), ("blocklist", "C16"), ("vault/", "C05"), ("rwa/storage.rs", "C04"),
        ("access_control", "C06"), ("ownable", "C07"), ("role_transfer", "C07"), ("timelock", "C08"), ("governance/src/votes", "C13"),
        ("non_fungible/storage.rs", "C11"), ("enumerable", "C10"), ("consecutive", "C10"), ("claim_topics_and_issuers", "C20"), ("token_binder", "C20"),
-       ("identity_verifier", "C15"), ("claim_issuer", "C15"), ("smart_account", "C03"), ("spending_limit", "C14"), ("weighted_threshold", "C14"),
+       ("identity_verifier", "C15"), ("identity_registry_storage", "C20"), ("simple_threshold", "C14"), ("upgradeable", "C16"), ("compliance", "C04"), ("math/", "C12"), ("claim_issuer", "C15"), ("smart_account", "C03"), ("spending_limit", "C14"), ("weighted_threshold", "C14"),
        ("webauthn", "C18"), ("i128_fixed_point", "C12"), ("crypto/merkle", "C17"), ("merkle_distributor", "C17"), ("pausable", "C16"), ("fee-abstraction", "C19")]
 out, tag = sys.argv[1], sys.argv[2]
 V = os.path.dirname(os.path.dirname(os.path.abspath(__file__)))
